@@ -115,3 +115,30 @@ Proof.
     + intros [].
 Qed.
 Print Assumptions chunking_irrelevant.
+
+(* ---- tie to the source: every statement above is about Model.v / Api.v; Proofs/Src*.v prove that the
+   functions TRANSLATED from /repo/src/lib.rs on this run (Generated/Lib.v, LibApi.v) compute the same
+   results, for every environment whose scanners only move forward (all concrete backends do), so each
+   theorem of this file holds of the translated source by rewriting with `source_tie`.  Only the entry-point
+   families this property speaks about are imported (Req, Resp, PH, Chunk) ---- *)
+From HV Require Import Backends.
+From HV.Proofs Require Import Mono BackendsFwd SrcReq SrcResp SrcPH SrcChunk.
+Theorem source_tie : forall E, env_fwd E -> request_source_is_model E /\ response_source_is_model E /\ headers_source_is_model E /\ chunk_source_is_model.
+Proof. intros E HE. repeat split; first [apply src_tie_request | apply src_tie_response | apply src_tie_headers | apply src_tie_chunk]; exact HE. Qed.
+Print Assumptions source_tie.
+Theorem source_tie_backends : forall W be, request_source_is_model (env_of W be) /\ response_source_is_model (env_of W be) /\ headers_source_is_model (env_of W be) /\ chunk_source_is_model.
+Proof. intros W be. apply source_tie, backends_fwd. Qed.
+Print Assumptions source_tie_backends.
+
+Theorem src_request_stable : forall E, env_ok E -> env_fwd E -> forall e cf buf ext arr rq,
+  bytes_ok buf -> bytes_ok ext ->
+  final_st (fst (fst (src_request_call E e cf buf arr rq))) ->
+  src_request_call E e cf (buf ++ ext) arr rq = src_request_call E e cf buf arr rq.
+Proof. intros E HE HF e cf buf ext arr rq Hb He. rewrite !src_request_call_eq by exact HF. apply request_stable; assumption. Qed.
+Print Assumptions src_request_stable.
+Theorem src_response_stable : forall E, env_ok E -> env_fwd E -> forall e cf buf ext arr rp,
+  bytes_ok buf -> bytes_ok ext ->
+  final_st (fst (fst (src_response_call E e cf buf arr rp))) ->
+  src_response_call E e cf (buf ++ ext) arr rp = src_response_call E e cf buf arr rp.
+Proof. intros E HE HF e cf buf ext arr rp Hb He. rewrite !src_response_call_eq by exact HF. apply response_stable; assumption. Qed.
+Print Assumptions src_response_stable.
